@@ -129,7 +129,7 @@ func runSwitchLeader(ctx *core.Ctx, bin string) {
 // replication link is down and the leader has meanwhile made the object
 // permanent. After the link returns and the follower reports healthy it must
 // hold the object, like its leader; the same after a follower restart.
-func runTTLAcrossOutage(ctx *core.Ctx, bin string) {
+func runTTLAcrossOutage(ctx *core.Ctx, bin string, drop bool) {
 	leader, err := srv.Start(srv.Opts{Bin: bin})
 	if err != nil {
 		ctx.Inconclusive("ttl-outage: " + err.Error())
@@ -172,7 +172,9 @@ func runTTLAcrossOutage(ctx *core.Ctx, bin string) {
 	}
 	time.Sleep(400 * time.Millisecond) // streamed
 	px.Pause()
-	px.DropAll()
+	if drop {
+		px.DropAll()
+	}
 	for i := 0; i < 6; i++ {
 		if i%2 == 0 {
 			lc.Do("PERSIST", "fleet", "t"+strconv.Itoa(i))
@@ -184,10 +186,16 @@ func runTTLAcrossOutage(ctx *core.Ctx, bin string) {
 	px.Resume()
 	ok, why := quiescentCopy(leader, follower, 25*time.Second)
 	ctx.Eval(1)
-	ctx.Distinct("ttl-across-outage|reconnect")
+	ctx.Distinct(fmt.Sprintf("ttl-across-outage|reconnect|drop=%v", drop))
 	if !ok {
-		ctx.Violation("ttl-outage-diff", "objects with a 2.5 s lifetime were made permanent (PERSIST / EXPIRE 5000) on the leader while the replication link was down and their first deadline passed on the follower; after the link returned the follower reports healthy and differs from its quiescent leader (A=leader B=follower): "+why,
-			map[string]any{"scenario": "ttl-across-outage"})
+		how := "was down (connection dropped)"
+		key := "ttl-outage-diff"
+		if !drop {
+			how = "was stalled (bytes held back for 3.2 s, connection kept)"
+			key = "ttl-stall-diff"
+		}
+		ctx.Violation(key, "objects with a 2.5 s lifetime were made permanent (PERSIST / EXPIRE 5000) on the leader while the replication link "+how+" and their first deadline passed on the follower; afterwards the follower reports healthy and differs from its quiescent leader (A=leader B=follower): "+why,
+			map[string]any{"scenario": "ttl-across-outage", "connection_dropped": drop})
 		return
 	}
 	follower.Term(10 * time.Second)
@@ -199,7 +207,7 @@ func runTTLAcrossOutage(ctx *core.Ctx, bin string) {
 	follower = nf
 	ok, why = quiescentCopy(leader, follower, 25*time.Second)
 	ctx.Eval(1)
-	ctx.Distinct("ttl-across-outage|restart")
+	ctx.Distinct(fmt.Sprintf("ttl-across-outage|restart|drop=%v", drop))
 	if !ok {
 		ctx.Violation("ttl-outage-diff:after-restart", "the same scenario, after a restart of the follower: "+why, map[string]any{"scenario": "ttl-across-outage"})
 	}
